@@ -639,10 +639,18 @@ func ruleC18R4(c *Ctx) {
 	// the queue is closed before the abort signal, so that saveEverything's range terminates
 	c.checkOrder("C18.R4", fn, "close(inputChannel)", instrSet(closes), "inputClosed.Signal()", callInstrSet(sig))
 	// listener closer: socket closed after the wait, on every path
+	registryForm := false
 	for _, a := range []struct{ parent, what, closeName string }{
 		{"input/tcplistener.(*tcpLineListener).run", "listener socket", "(*net.TCPListener).Close"},
 		{"input/tcplistener.(*tcpLineListener).launchConnectionCloser", "connection", "(*net.TCPConn).Close"},
 	} {
+		if a.what == "connection" && !c18HasFn(c, a.parent) {
+			// no per-connection closer goroutine: the registry form (after seed c18g) — connections are registered with the
+			// listener and closed by one sweep on the stop request
+			c18RegistryCloser(c)
+			registryForm = true
+			continue
+		}
 		p := c.P.Fn(a.parent)
 		var g *ssa.Function
 		// the closer is the goroutine that waits on the stop request (a literal or a named method; run also launches the
@@ -692,6 +700,9 @@ func ruleC18R4(c *Ctx) {
 	for _, rc := range c.P.Fns(aRunConn) {
 		calleeIs := func(name string) func(ssa.CallInstruction) bool {
 			return func(s ssa.CallInstruction) bool { f := s.Common().StaticCallee(); return f != nil && isAnchor(f, name) }
+		}
+		if registryForm {
+			continue // decided by c18RegistryCloser
 		}
 		lc := c.sitesWhereR(rc, calleeIs("input/tcplistener.(*tcpLineListener).launchConnectionCloser"))
 		rd := c.sitesWhereR(rc, calleeIs("input/tcplistener.(*multiLineReader).Read"))
@@ -796,4 +807,121 @@ func hasNormKeyC18(parent string) bool {
 		}
 	}
 	return false
+}
+
+func c18HasFn(c *Ctx, name string) bool {
+	for _, f := range c.P.universe {
+		if anchorName(f) == name {
+			return true
+		}
+	}
+	return false
+}
+
+// c18RegistryCloser: the registry form of "every connection is closed on the stop request". Instead of one closer goroutine
+// per connection, runConnection registers its connection in a collection held by the listener, and a sweep that follows the
+// stop request closes whatever is registered. The sweep runs once: a connection accepted just before the stop and registered
+// after the sweep is closed by nobody — unless the stop request is consulted after the registration. Decided here:
+// (1) the connection parameter is stored into a map / slice field of the listener in runConnection's region;
+// (2) on every path, the first read is preceded by a consultation of stopRequest, and every such consultation by a
+//     registration (register, then look: whichever of sweep and registration comes second sees the other);
+// (3) some function of the package ranges over that field and closes the connections, and waits on / is reached after the
+//     stop request.
+func c18RegistryCloser(c *Ctx) {
+	const fStop = "input/tcplistener.tcpLineListener.stopRequest"
+	for _, rc := range c.P.Fns(aRunConn) {
+		var connP ssa.Value
+		for _, p := range rc.Params {
+			if strings.Contains(p.Type().String(), "net.TCPConn") || strings.Contains(p.Type().String(), "net.Conn") {
+				connP = p
+			}
+		}
+		if connP == nil {
+			broken("C18.R4: runConnection no longer has a connection parameter")
+		}
+		isConn := func(v ssa.Value) bool {
+			return v != nil && mentions(v, func(y ssa.Value) bool { return c.resolveR(rc, y) == connP })
+		}
+		listenerField := func(v ssa.Value) string {
+			f := ""
+			mentions(v, func(y ssa.Value) bool {
+				if fa, ok := y.(*ssa.FieldAddr); ok && typeName(fa.X.Type()) == "input/tcplistener.tcpLineListener" && f == "" {
+					f = fieldName(fa.X.Type(), fa.Field)
+				}
+				return false
+			})
+			return f
+		}
+		regs := map[ssa.Instruction]bool{}
+		regField := ""
+		c.eachInstrR(rc, func(in ssa.Instruction) {
+			switch x := in.(type) {
+			case *ssa.MapUpdate:
+				if f := listenerField(x.Map); f != "" && (isConn(x.Key) || isConn(x.Value)) {
+					regs[in], regField = true, f
+				}
+			case *ssa.Store:
+				if f := listenerField(x.Addr); f != "" && isConn(x.Val) && !strings.HasSuffix(f, ".stopRequest") {
+					regs[in], regField = true, f
+				}
+			}
+		})
+		if len(regs) == 0 {
+			c.bad("C18.R4", rc, "every connection is closed on the stop request", rc.Pos(), "neither a per-connection closer goroutine nor a registration of the connection with the listener was found: nothing closes an open connection when the agent stops")
+			continue
+		}
+		consults := map[ssa.Instruction]bool{}
+		for _, s := range c.callsInR(rc) {
+			if _, isDefer := s.(*ssa.Defer); isDefer {
+				continue
+			}
+			uses := false
+			if s.Common().IsInvoke() && mentions(s.Common().Value, isFieldAddrOf(fStop)) {
+				uses = true
+			}
+			for _, a := range s.Common().Args {
+				if mentions(a, isFieldAddrOf(fStop)) {
+					uses = true
+				}
+			}
+			if uses {
+				consults[s] = true
+			}
+		}
+		var reads []ssa.CallInstruction
+		for _, s := range c.callsInR(rc) {
+			if f := s.Common().StaticCallee(); f != nil && isAnchor(f, "input/tcplistener.(*multiLineReader).Read") {
+				reads = append(reads, s)
+			}
+		}
+		if len(consults) == 0 {
+			c.bad("C18.R4", rc, "the stop request is consulted after the connection is registered", firstPos(regs),
+				"the connection is registered in "+regField+" for a sweep that runs once after the stop request, and the stop request is never looked at afterwards: a connection accepted just before the stop and registered after the sweep is closed by nobody, runConnection keeps reading, the listener never reports stopped")
+			continue
+		}
+		c.checkOrder("C18.R4", rc, "registration of the connection", regs, "consultation of the stop request", consults)
+		c.checkOrder("C18.R4", rc, "consultation of the stop request (after registering)", consults, "first read", callInstrSet(reads))
+		// the sweep
+		okSweep := false
+		for _, f := range c.P.universe {
+			if fnPkgPath(f) != fnPkgPath(rc) {
+				continue
+			}
+			ranges, closes := false, false
+			eachInstr(f, func(in ssa.Instruction) {
+				if r, ok := in.(*ssa.Range); ok && listenerField(r.X) == regField {
+					ranges = true
+				}
+				if ci, ok := in.(ssa.CallInstruction); ok {
+					if g := ci.Common().StaticCallee(); g != nil && (extName(g) == "(*net.TCPConn).Close" || extName(g) == "(*net.conn).Close") {
+						closes = true
+					}
+				}
+			})
+			if ranges && closes {
+				okSweep = true
+			}
+		}
+		c.check(okSweep, "C18.R4", rc, "a sweep closes every registered connection", firstPos(regs), "a function of the package ranges over "+regField+" and closes the connections", "nothing ranges over "+regField+" to close the registered connections")
+	}
 }
